@@ -37,14 +37,14 @@ func (h *Hold) Release() { close(h.ch) }
 
 // Controller implements the rules.
 type Controller struct {
-	mu       sync.Mutex
-	seq      int
-	Log      []Arrival
-	barriers map[string]*barrier
-	holds    map[string]func(args []interface{}) bool // point -> predicate: park this arrival?
-	Parked   chan *Hold
+	mu          sync.Mutex
+	seq         int
+	Log         []Arrival
+	barriers    map[string]*barrier
+	holds       map[string]func(args []interface{}) bool // point -> predicate: park this arrival?
+	Parked      chan *Hold
 	HoldTimeout time.Duration
-	Forced   int
+	Forced      int
 }
 
 // New installs a fresh controller as the gate function.
